@@ -244,7 +244,13 @@ fn parse_item(s: &str) -> Option<Item> {
             {
                 return None;
             }
-            let (p, eth) = frame(&k, ip_packet(&k, Some((fo, mf)), &b));
+            let (mut p, eth) = frame(&k, ip_packet(&k, Some((fo, mf)), &b));
+            // bytes behind the IP packet (Ethernet padding, a frame check sequence, an oversized read buffer)
+            // belong to nobody: every fifth packet carries some
+            if ts % 5 == 0 {
+                let n = [6usize, 8, 3, 16][(ts / 5 % 4) as usize];
+                p.extend(std::iter::repeat(0xeeu8).take(n));
+            }
             Some(Item::Packet(p, eth, ts, k.chan))
         }
         ["d", key, ts, fo, mf, h, rsv] => {
